@@ -47,11 +47,16 @@ class ManualExecutor(object):
     def __init__(self):
         self.queue = []
         self.is_shutdown = False
+        self.inline = False
 
     def submit(self, fn, *args, **kwargs):
         if self.is_shutdown:
             raise RuntimeError('cannot schedule new futures after shutdown')
         f = Future()
+        if self.inline:
+            self.queue.append((f, fn, args, kwargs))
+            self.run(len(self.queue) - 1)
+            return f
         self.queue.append((f, fn, args, kwargs))
         return f
 
@@ -164,6 +169,8 @@ class Harness(object):
                     raise connection.ConnectionException('scripted connect failure', endpoint=endpoint)
                 if o == 'auth':
                     raise cassandra.AuthenticationFailed('scripted auth failure')
+                if o == 'err':
+                    raise RuntimeError('scripted connect error')
                 c = cls(hid, control)
                 if H.after_connect is not None:      # C45: something happens while the connect is in progress
                     cb, H.after_connect = H.after_connect, None
@@ -180,6 +187,22 @@ class Harness(object):
 
             def close(self):
                 self.is_closed = True
+
+            @classmethod
+            def create_timer(cls, timeout, callback):
+                t = type('T', (), {'cancel': lambda self: None, 'callback': callback})()
+                H.req_timers.append(t)
+                return t
+
+            def get_request_id(self):
+                self._rid = getattr(self, '_rid', 0) + 1
+                return self._rid
+
+            def send_msg(self, msg, request_id, cb, **kwargs):
+                self.sent = getattr(self, 'sent', []) + [request_id]
+                return 1
+
+            endpoint = property(lambda self: H.endpoints[self.hid])
 
             def set_keyspace_blocking(self, ks):
                 pass
@@ -199,6 +222,7 @@ class Harness(object):
 
         self.FakeConn = FakeConn
         self.after_connect = None
+        self.req_timers = []
         self.in_recon = False
         self.discounted_nonup = set()     # hosts for which an on_down was ignored (open pool) while not marked up
 
@@ -251,13 +275,13 @@ class Harness(object):
         _install_tracker(cl)
         _CURRENT[0] = self
 
-        with warnings.catch_warnings():
-            warnings.simplefilter('ignore')
-            c = cl.Cluster(contact_points=[self.endpoints[0]], connection_class=FakeConn, load_balancing_policy=RecLBP(),
-                           reconnection_policy=Recon(), protocol_version=4, monitor_reporting_enabled=False,
-                           idle_heartbeat_interval=0, executor_threads=1)
-        # the real scheduler thread was started by __init__: stop it (joins); the real executor has no thread yet
-        c.scheduler.shutdown()
+        real_sched = cl._Scheduler
+        cl._Scheduler = lambda executor: ManualScheduler()      # no scheduler thread is ever started
+        try:
+            c = self._construct(cl, FakeConn, RecLBP, Recon)
+        finally:
+            cl._Scheduler = real_sched
+        # the real ThreadPoolExecutor has not started any thread yet
         c.executor.shutdown()
         self.executor = c.executor = ManualExecutor()
         self.scheduler = c.scheduler = ManualScheduler()
@@ -287,6 +311,13 @@ class Harness(object):
         self.log = []
 
     # ------------------------------------------------------------------ construction helpers
+    def _construct(self, cl, FakeConn, RecLBP, Recon):
+        with warnings.catch_warnings():
+            warnings.simplefilter('ignore')
+            return cl.Cluster(contact_points=[self.endpoints[0]], connection_class=FakeConn, load_balancing_policy=RecLBP(),
+                              reconnection_policy=Recon(), protocol_version=4, monitor_reporting_enabled=False,
+                              idle_heartbeat_interval=0, executor_threads=1)
+
     def new_session(self):
         cl = self.cl
         s = object.__new__(cl.Session)
